@@ -51,7 +51,10 @@ class Callers:
             self.procs[name] = {"pid": pid, "exe": p, "cmdline": f"{p} 600", "name": name}
         self.users = {}
         for uid, name, groups in ((0, "root", ["root"]), (1000, "alice", ["users", "docker"]), (1001, "bob", ["users", "adm"]),
-                                  (1002, "carol", ["wheel"])):
+                                  (1002, "carol", ["wheel"]),
+                                  # user ids that look special somewhere (system accounts, the account tests use, nobody, a high id)
+                                  (1, "daemon", ["daemon"]), (999, "svc", ["svc"]), (998, "svc2", ["svc"]), (65534, "nobody", ["nogroup"]),
+                                  (2147483648, "big", ["users"])):
             self.add_user(uid, name, groups)
         time.sleep(0.2)  # let the callers exec
 
@@ -280,6 +283,78 @@ class Runner:
                "failed": failed, "t0": t0, "t1": t1, "req": req, "conn": conn if keep_conn else None}
         self.observations.append(obs)
         return obs
+
+    def run_session(self, cases, count=None):
+        """the cases one after the other on ONE kept-alive client connection (each under its own environment); stops when the
+        listener closes the connection. Returns the observations made."""
+        conn = None
+        done = []
+        for c in cases:
+            try:
+                o = self.run_case(c, conn=conn, keep_conn=True)
+            except OSError:
+                break
+            if conn is not None and o["resp"] is None and not o["recs"]:
+                # the listener had already closed the kept connection: nothing was observed
+                self.observations.remove(o)
+                if count:
+                    count("kept_connection_was_closed")
+                break
+            done.append(o)
+            conn, o["conn"] = o["conn"], None
+            o["session_index"] = len(done) - 1
+            if o["resp"] is None or (e2e.hget(o["resp"]["headers"], b"connection") or b"").lower() == b"close":
+                break
+        if conn is not None:
+            conn.close()
+        return done
+
+    def run_after_host_close(self, case1, case2, oracle, count=None):
+        """case1 is answered by the host, which then closes that connection (the host ends the upstream connection the client connection is tied
+        to); case2 then follows on the SAME client connection. The unchanged agent answers it 502 or ends the client connection; if
+        the host does see a request, `oracle` judges it like any relayed request (with the model's prediction for case2)."""
+        st = self.stack
+        self.set_env(case1["env"])
+        c = case1["caller"]
+        conn = st.connect(audit=(c["uid"], c["pid"], 1 if c["elevated"] else 0, case1["dest"][0], case1["dest"][1]))
+        self.token_seq += 1
+        tok = "hc%d" % self.token_seq
+        # (no `Connection: close` header: the host just drops the idle connection, as an idle timeout or a restart does)
+        st.hosts.plans[tok] = {"status": 200, "reason": "OK", "headers": [(b"content-type", b"text/plain")],
+                               "body": b"first", "framing": "cl", "close": True}
+        r1 = conn.request(e2e.build_request(case1["req"]["method"], case1["req"]["target"],
+                                            list(case1["req"]["headers"]) + [(b"x-verif-token", tok.encode())]), case1["req"]["method"].encode(), 6.0)
+        st.hosts.plans.pop(tok, None)
+        time.sleep(0.15)
+        if r1 is None or r1["status"] != 200:
+            conn.close()
+            if count:
+                count("host_close_first_request_not_relayed")
+            return None
+        try:
+            o2 = self.run_case(dict(case2, caller=case1["caller"], dest=case1["dest"], timeout=2.5), conn=conn, keep_conn=True)
+        except OSError:
+            conn.close()
+            return None
+        self.observations.remove(o2)
+        conn.close()
+        o2["conn"] = None
+        if count:
+            count("request_after_host_closed_upstream")
+        full = [r for r in o2["recs"] if not r.get("partial")]
+        if full:
+            now = "Thu, 01 Jan 1970 00:00:00 GMT"
+            for r in full:
+                d = e2e.hget(r["headers"], b"x-ms-azure-host-date")
+                if d:
+                    now = d.decode("latin-1")
+            line = model_line(o2["case"]["env"], o2["case"].get("caller"), o2["case"].get("dest"), o2["req"], now)
+            m = parse_model(vlib.run_driver([line])[0])
+            o2["model"] = m
+            if count:
+                count("request_after_host_closed_upstream_reached_host")
+            oracle(self.chk, o2, m)
+        return o2
 
     # ---- model side + comparison
     def finish(self, oracle):
